@@ -40,6 +40,9 @@ RestrictedOverrides ==
       [key |-> "log/log", name |-> "Fatalf",      by |-> "logFatalf",     class |-> "func"],
       [key |-> "log/log", name |-> "Fatalln",     by |-> "logFatalln",    class |-> "func"],
       [key |-> "log/log", name |-> "New",         by |-> "logNew",        class |-> "func"],
+      \* since the repair of F-C13-1 (91b7278): every way of obtaining a *log.Logger gives the wrapper
+      [key |-> "log/log", name |-> "Default",     by |-> "logDefault",    class |-> "func"],
+      [key |-> "log/slog/slog", name |-> "NewLogLogger", by |-> "slogNewLogLogger", class |-> "func"],
       [key |-> "log/log", name |-> "Logger",      by |-> "logLogger",     class |-> "type"] }
 
 Override(e) == {o \in RestrictedOverrides : o.key = e.key /\ o.name = e.name}
@@ -124,18 +127,15 @@ Drifted(e) == [rel |-> e.rel, plat |-> e.plat, key |-> e.key, name |-> e.name, l
 TokOf(k) == CASE k \in {"int", "rune"} -> "INT" [] k = "float" -> "FLOAT" [] k = "string" -> "STRING" [] OTHER -> "?"
 
 \* ConstExact: a re-materialised constant has exactly the value of the real constant.
-\* Second clause (DESIGN 5.9): an untyped float constant that is not a dyadic rational is
-\* bound to the binary rounding fixConst prints; the literal must then be exactly that
-\* rounding of the real value (so a corrupted digit is still caught).  Those entries are
-\* reported separately (Inexact) as the known finding.
+\* (Until the extractor was repaired - commits ece5c48, 10871dd - a second clause admitted the
+\* binary rounding fixConst used to print for non-dyadic floats, reported as finding F-C14-1;
+\* such constants are now emitted as exact quotients and held to the same rule as all others.)
 ConstExactOK(e) ==
     e.form = "lit" =>
       /\ e.real.class = "const" /\ e.real.untyped
       /\ e.tok = TokOf(e.real.ckind)
       /\ e.bound # ""
-      /\ IF e.real.ckind = "float" /\ ~e.real.dyadic
-           THEN e.lit = e.real.rounded
-           ELSE e.bound = e.real.exact \/ Drifted(e)
+      /\ (e.bound = e.real.exact \/ Drifted(e))
 
 Inexact(e) == e.form = "lit" /\ ConstExactOK(e) /\ e.bound # e.real.exact /\ ~Drifted(e)
 
